@@ -245,16 +245,24 @@ class Matcher:
 
 
 # ---------------------------------------------------------------- functional entry points
+_FOLDS = [0]
+
+
 def functional_fold(kind: str, variant: str, P: Params, hist):
     """Fold a history (list of one-element observations) through the functional API
     inferno.trace_* / exp_trace_* / exprate_trace_*; returns the final float value."""
     tr = None
-    for o in hist:
-        x = torch.tensor([o["x"] * P.u], dtype=torch.float32)
+    # every other fold uses the documented tolerance band: matching observations are moved off the target by up to
+    # 0.2 u (tolerance 0.25 u), the others stay at least 0.8 u away - the classification, hence the trace, is the same
+    _FOLDS[0] += 1
+    banded = _FOLDS[0] % 2 == 1 and kind in ("near", "cum")
+    for i, o in enumerate(hist):
+        jitter = ((i * 7 + _FOLDS[0]) % 5 - 2) * 0.1 * P.u if banded else 0.0
+        x = torch.tensor([o["x"] * P.u + jitter], dtype=torch.float32)
         decay = math.exp(-P.dt / P.tau)
         if kind in ("near", "cum"):
             name = "trace_nearest" if kind == "near" else "trace_cumulative"
-            common = dict(amplitude=P.A, target=P.target * P.u, tolerance=None)
+            common = dict(amplitude=P.A, target=P.target * P.u, tolerance=(0.25 * P.u if banded else None))
             if variant == "plain":
                 tr = getattr(inferno, name)(x, tr, decay=decay, **common)
             elif variant == "exp":
